@@ -59,6 +59,12 @@ FORMS = {
                    "key = fn(x) x[0])",
     "sorted_pos": "sorted(l, fn(a, b) compare(b, a), fn(x) x[0])",
     "set_list": "list(s)",
+    # spreading a set: into a list literal (alone and next to other
+    # elements), into call arguments, destructuring it
+    "set_spread": "[...s]",
+    "set_spread2": "do def r = ['h', ...s]; delete_at(r, 0); r end",
+    "set_spread_call": "(fn(a...) a...)(...s)",
+    "set_sorted": "sorted(s)",
     "set_comp": "[x for x in s]",
     "set_for": "do def r = []; for x in s do append(r, x); end; r end",
     "set_str": "string(s)",
@@ -269,6 +275,8 @@ def explore_enum(chunk):
                 s.addItem(core.to_value(x))
                 m.addItem(core.to_value(x), V.ValueInt(0))
             for name, arg in (("set_list", "s"), ("set_comp", "s"),
+                              ("set_spread", "s"), ("set_spread2", "s"),
+                              ("set_spread_call", "s"), ("set_sorted", "s"),
                               ("set_for", "s"), ("map_keys", "m"),
                               ("map_for", "m"), ("map_entries", "m"),
                               ("map_set", "m")):
@@ -443,7 +451,7 @@ def main(tier, seed):
               f"transitivity; sorted on all lists of length <= {maxn} over 6 "
               f"tagged elements with 3 key classes x 5 call variants; all "
               f"insertion orders of all <= 4-subsets of per-kind enumeration "
-              f"pools through 9 set/map enumeration paths"),
+              f"pools through 13 set/map enumeration paths"),
         exhaustive=True,
         assumptions=["ordering across kinds, NaN, and ordering of "
                      "sets/maps/objects among themselves are not claimed"],
